@@ -34,9 +34,9 @@ ASSUMPTIONS = ["a text difference whose per-term value multisets agree under two
 ALT_NAMES = {"eri": "W", "coulomb": "c", "fock": "h", "operator": "o",
              "gs_amplitude": "z", "gs_density": "rho",
              "left_adc_amplitude": "L", "right_adc_amplitude": "R",
-             "orb_energy": "eps", "sym_orb_denom": "Q"}
+             "orb_energy": "eps", "sym_orb_denom": "K"}
 ALT_ALIAS = {'W': 'V', 'c': 'v', 'h': 'f', 'o': 'd', 'L': 'X', 'R': 'Y',
-             'Q': 'D', 'z1': 't1', 'z2': 't2', 'z3': 't3', 'z4': 't4',
+             'K': 'D', 'z1': 't1', 'z2': 't2', 'z3': 't3', 'z4': 't4',
              'rho2': 'p2', 'rho3': 'p3'}
 
 QUICK = ['e3', 'amp2', 'ev2', 'm2', 'ip_cpl', 'tm2', 'ov2', 'mvp1', 're_amp2',
@@ -186,7 +186,7 @@ def run_case(case, res):
         else:
             res.count('alt_config_runs')
             left = [n for n in (r'\{V\^', r'\{f\^', r'\{t\d', r'\{X\^', r'\{Y\^',
-                                r'\{e_\{', r'\{D\^', r'\{d\^', r'\{p\d', r'hf\.')
+                                r'\{e_\{', r'\{D\^', r'\{d\^', r'\{p\d')
                     if re.search(n, rec['text'])]
             if left:
                 res.violation(f'{request} with the alternative tensor names '
